@@ -259,4 +259,11 @@ pub const HPKE_RFC: u32 = 9180;
             return Err(HpkeError::OpenError);
         }
         let msg_len = ciphertext.len() - tag_len;""")]),
+    dict(name='b-gen-keypair-ikm-zeroizing', props=['C02', 'C03', 'C13', 'C16', 'C17', 'C18'],
+         edits=[('src/kem.rs', "use zeroize::Zeroize;", "use zeroize::{Zeroize, Zeroizing};"),
+                ('src/kem.rs', """        let mut ikm: GenericArray<u8, <Self::PrivateKey as Serializable>::OutputSize> =
+            GenericArray::default();""", """        let mut ikm: Zeroizing<GenericArray<u8, <Self::PrivateKey as Serializable>::OutputSize>> =
+            Zeroizing::new(GenericArray::default());"""),
+                ('Cargo.toml', 'generic-array = { version = "0.14", default-features = false }',
+                 'generic-array = { version = "0.14", default-features = false, features = ["zeroize"] }')]),
 ]
